@@ -6,3 +6,4 @@ from . import asynceq  # noqa: F401
 from . import concurrent  # noqa: F401
 from . import storage  # noqa: F401
 from . import entry  # noqa: F401
+from . import clone  # noqa: F401
